@@ -176,6 +176,47 @@ func c11Located(r *lp.Run) {
 	single := rootFor("/items")
 	single = strings.Replace(single, "    $ref: \"items.yml#/item\"\n", "    get:\n      operationId: x\n      parameters:\n        - name: q\n          in: query\n          schema:\n            type: strng\n      responses:\n        \"200\":\n          description: ok\n", 1)
 	scs = append(scs, sc{"unknown schema type in a single file", locFiles{"root.yml", map[string]string{"root.yml": single}}, "root.yml", 23})
+	// line of the first line of text that contains marker (1-based)
+	lineOf := func(text, marker string) int {
+		for i, l := range strings.Split(text, "\n") {
+			if strings.Contains(l, marker) {
+				return i + 1
+			}
+		}
+		return 0
+	}
+	// YAML mapping keys that are not strings: plain integer status codes (`404:`) — the same faults as with
+	// quoted keys must be found at the key
+	for _, q := range []struct{ name, key, body string }{
+		{"unquoted status code with a null response", "404", " ~"},
+		{"quoted status code with a null response", `"404"`, " ~"},
+		{"unquoted status code out of range", "700", "\n          description: bad"},
+		{"quoted status code out of range", `"700"`, "\n          description: bad"},
+	} {
+		doc := "openapi: 3.0.3\ninfo:\n  title: t\n  version: \"1\"\npaths:\n  /x:\n    get:\n      operationId: x\n      responses:\n        200:\n          description: ok\n        201:\n          description: ok\n        " + q.key + ":" + q.body + "\n        default:\n          description: d\n"
+		scs = append(scs, sc{q.name, locFiles{"root.yml", map[string]string{"root.yml": doc}}, "root.yml", lineOf(doc, "        "+q.key+":")})
+	}
+	// a conflict of two keywords is located at the keywords (fixed 176e3718), an enum value of the wrong type at
+	// the value
+	for _, q := range []struct{ name, schema, marker string }{
+		{"minLength greater than maxLength", "type: string\n            description: d\n            minLength: 10\n            maxLength: 5", "minLength: 10"},
+		{"minItems greater than maxItems", "type: array\n            items: {type: string}\n            description: d\n            maxItems: 1\n            minItems: 3", "Items: "},
+		{"enum value of the wrong type", "type: integer\n            enum:\n              - 1\n              - 2\n              - \"three\"", "\"three\""},
+	} {
+		doc := "openapi: 3.0.3\ninfo:\n  title: t\n  version: \"1\"\npaths:\n  /x:\n    get:\n      operationId: x\n      parameters:\n        - name: q\n          in: query\n          schema:\n            " + q.schema + "\n      responses:\n        \"200\":\n          description: ok\n"
+		want := lineOf(doc, q.marker)
+		if q.marker == "Items: " {
+			want = 0 // either of the two keyword lines: checked below through wantAny
+		}
+		scs = append(scs, sc{q.name, locFiles{"root.yml", map[string]string{"root.yml": doc}}, "root.yml", want})
+	}
+	// a parameter whose schema lives in another file and does not fit the style: the position is inside the
+	// schema, so the file must be the schema's (fixed 066adfdc)
+	{
+		root := "openapi: 3.0.3\ninfo:\n  title: t\n  version: \"1\"\npaths:\n  /x:\n    get:\n      operationId: x\n      parameters:\n        - name: f\n          in: query\n          style: deepObject\n          explode: true\n          schema:\n            $ref: \"schemas.yml#/Filter\"\n      responses:\n        \"200\":\n          description: ok\n"
+		schemas := strings.Repeat("# padding\n", 24) + "Filter:\n  type: string\n"
+		scs = append(scs, sc{"style/type conflict with the schema in another, longer file", locFiles{"root.yml", map[string]string{"root.yml": root, "schemas.yml": schemas}}, "", 0})
+	}
 	for _, s := range scs {
 		errText, kind := runLocated(s.lf)
 		r.Count("c11 located "+s.name, "located:"+kind, true)
@@ -353,4 +394,83 @@ func c11Positions(r *lp.Run) {
 	}
 	c11Flush(r)
 	r.Exhaustive("keyed / enumerated positions × hostile values", fmt.Sprintf("%d positions × %d values = %d documents", len(positions), len(values), n))
+}
+
+// descriptions that stress the doc-comment line breaker: leading punctuation, very long unbreakable runs, both at
+// the start of a description and right after a wrap point; and schemas whose members share their types (a DAG
+// that is a tree of exponential size when walked along every path)
+func c11Shapes(r *lp.Run) {
+	var texts []string
+	for _, lead := range []string{"", ".", ",", ";", " .", "..", ".,;", "- ", "\t."} {
+		for _, n := range []int{98, 99, 100, 101, 130, 400} {
+			for _, run := range []string{"a", "spec/template/containers/", "é"} {
+				long := lead + strings.Repeat(run, n/len(run)+1)
+				texts = append(texts, long, strings.Repeat("word ", 19)+long, "First line.\n"+long+"\nlast", long+" "+long)
+			}
+		}
+	}
+	place := func(where, text string) []byte {
+		doc := map[string]any{"openapi": "3.0.3", "info": map[string]any{"title": "t", "version": "1"},
+			"paths": map[string]any{"/x": map[string]any{"get": map[string]any{"operationId": "x",
+				"parameters": []any{map[string]any{"name": "q", "in": "query", "schema": map[string]any{"type": "string"}}},
+				"responses":  map[string]any{"200": map[string]any{"description": "ok", "content": map[string]any{"application/json": map[string]any{"schema": map[string]any{"$ref": "#/components/schemas/S"}}}}}}}},
+			"components": map[string]any{"schemas": map[string]any{"S": map[string]any{"type": "object", "properties": map[string]any{"p": map[string]any{"type": "string"}}}}}}
+		op := doc["paths"].(map[string]any)["/x"].(map[string]any)["get"].(map[string]any)
+		sch := doc["components"].(map[string]any)["schemas"].(map[string]any)["S"].(map[string]any)
+		switch where {
+		case "info":
+			doc["info"].(map[string]any)["description"] = text
+		case "operation":
+			op["description"] = text
+			op["deprecated"] = true
+		case "summary":
+			op["summary"] = text
+		case "parameter":
+			op["parameters"].([]any)[0].(map[string]any)["description"] = text
+		case "schema":
+			sch["description"] = text
+		case "property":
+			sch["properties"].(map[string]any)["p"].(map[string]any)["description"] = text
+		case "response":
+			op["responses"].(map[string]any)["200"].(map[string]any)["description"] = text
+		}
+		b, _ := json.Marshal(doc)
+		return b
+	}
+	wheres := []string{"info", "operation", "summary", "parameter", "schema", "property", "response"}
+	k := 0
+	for _, t := range texts {
+		for _, w := range wheres {
+			k++
+			if !r.Thorough() && k%4 != int(r.Seed%4) {
+				continue
+			}
+			c11Judge(r, place(w, t), nil, fmt.Sprintf("description shape at %s: %d bytes starting %q", w, len(t), truncN(t, 24)))
+		}
+	}
+	// shared members
+	for _, n := range []int{12, 26, 40} {
+		schemas := map[string]any{}
+		for i := 0; i < n; i++ {
+			schemas[fmt.Sprintf("L%d", i)] = map[string]any{"allOf": []any{map[string]any{"$ref": fmt.Sprintf("#/components/schemas/L%d", i+1)}, map[string]any{"$ref": fmt.Sprintf("#/components/schemas/L%d", i+1)}}}
+		}
+		schemas[fmt.Sprintf("L%d", n)] = map[string]any{"type": "object", "properties": map[string]any{"a": map[string]any{"type": "string"}}}
+		c11Judge(r, c11SharedDoc(schemas), nil, fmt.Sprintf("allOf members shared by two parents, %d levels", n))
+		schemas = map[string]any{}
+		for i := 0; i < n; i++ {
+			next := map[string]any{"$ref": fmt.Sprintf("#/components/schemas/L%d", i+1)}
+			schemas[fmt.Sprintf("L%d", i)] = map[string]any{"type": "object", "properties": map[string]any{"a": next, "b": next}}
+		}
+		schemas[fmt.Sprintf("L%d", n)] = map[string]any{"type": "object", "properties": map[string]any{"a": map[string]any{"type": "string"}}}
+		c11Judge(r, c11SharedDoc(schemas), nil, fmt.Sprintf("property types shared by two members, %d levels", n))
+	}
+}
+
+func c11SharedDoc(schemas map[string]any) []byte {
+	b, _ := json.Marshal(map[string]any{"openapi": "3.0.3", "info": map[string]any{"title": "t", "version": "1"},
+		"paths": map[string]any{"/x": map[string]any{"post": map[string]any{"operationId": "x",
+			"requestBody": map[string]any{"content": map[string]any{"application/json": map[string]any{"schema": map[string]any{"$ref": "#/components/schemas/L0"}}}},
+			"responses":   map[string]any{"200": map[string]any{"description": "ok"}}}}},
+		"components": map[string]any{"schemas": schemas}})
+	return b
 }
